@@ -558,7 +558,66 @@ func c10chans(acc *c10acc) {
 			}
 		}
 	}
-	acc.samples = append(acc.samples, map[string]any{"kind": "chan", "input": "every content over {0,1,2} of length <= 3, buffered+closed and unbuffered producer"})
+	// the channel is shared state: what is left in it after k iterations, and what a second reader
+	// (the loop body itself) sees, must be what the native range leaves / shows
+	for _, content := range contents {
+		if len(content) == 0 {
+			continue
+		}
+		mk := func() chan int {
+			ch := make(chan int, len(content)+1)
+			for _, v := range content {
+				ch <- v
+			}
+			close(ch)
+			return ch
+		}
+		for stop := 1; stop <= len(content); stop++ {
+			// break after `stop` iterations, then look at the channel
+			ch := mk()
+			n := 0
+			for range ch {
+				n++
+				if n == stop {
+					break
+				}
+			}
+			nativeLeft := len(ch)
+			ch = mk()
+			it := seq.NewChanIter[int](ch)
+			for n = 0; n < stop && it.MoveNext(); n++ {
+			}
+			acc.inputs++
+			acc.steps += stop
+			if len(ch) != nativeLeft {
+				acc.fail("chan-range", fmt.Sprintf("chan %v stop after %d", content, stop), "values left in the channel after stopping differ",
+					map[string]any{"native_left": nativeLeft, "iter_left": len(ch)})
+			}
+		}
+		// the body receives one more value itself
+		var native, got []kv
+		ch := mk()
+		for v := range ch {
+			w, ok := <-ch
+			native = append(native, kv{v, fmt.Sprint(w, ok)})
+		}
+		ch = mk()
+		it := seq.NewChanIter[int](ch)
+		for it.MoveNext() {
+			w, ok := <-ch
+			got = append(got, kv{it.Current().Key, fmt.Sprint(w, ok)})
+			if len(got) > 10 {
+				break
+			}
+		}
+		acc.inputs++
+		acc.steps += len(got) + 1
+		if !reflect.DeepEqual(native, got) {
+			acc.fail("chan-range", fmt.Sprintf("chan %v body receives too", content), "channel range differs when the body also receives",
+				map[string]any{"native": fmtPairs(native), "iter": fmtPairs(got)})
+		}
+	}
+	acc.samples = append(acc.samples, map[string]any{"kind": "chan", "input": "every content over {0,1,2} of length <= 3, buffered+closed and unbuffered producer; stop after k iterations and inspect the channel; body receiving as a second reader"})
 }
 
 func C10(tier string) *core.Report {
